@@ -39,6 +39,9 @@ structure DataFile where
   side    : Sidecar
   isDb    : Bool
   chain   : Bool := true
+  /-- which snapshot directory the file lives in (a full snapshot installed from a leader
+  carries its own WAL files in the same directory) -/
+  snap    : Nat := 0
 deriving DecidableEq, Repr
 
 structure XExt where
@@ -100,6 +103,9 @@ inductive ReapRes
   | ok
 deriving DecidableEq, Repr
 
+/-- number of snapshot directories (`snapSet.Len()`) -/
+def snapCount (fs : List DataFile) : Nat := (fs.map (·.snap)).eraseDups.length
+
 def reap (E : XExt) (s : Store) : Store × ReapRes :=
   let (s1, v) := ensureVerified E s
   if !v then (s1, .err)
@@ -107,15 +113,17 @@ def reap (E : XExt) (s : Store) : Store × ReapRes :=
   else
     match chainFiles s1 with
     | [] => (s1, .noop)
-    | [_] => if s1.files.length = 1 then (s1, .noop) else ({ s1 with files := chainFiles s1 }, .ok)
     | db :: wals =>
-      if !(db :: wals).all (fileCrcOk E) then (s1, .err)
+      -- "Single full snapshot with nothing newer — nothing to do" (even if it has WAL files)
+      if snapCount s1.files ≤ 1 then (s1, .noop)
+      else if wals = [] then ({ s1 with files := [db] }, .ok)   -- only older snapshots to remove
+      else if !(db :: wals).all (fileCrcOk E) then (s1, .err)
       else
         let out := E.replay db.content (wals.map (·.content))
-        ({ s1 with files := [{ content := out, side := .crc (E.crc out), isDb := true }] }, .ok)
+        ({ s1 with files := [{ content := out, side := .crc (E.crc out), isDb := true, snap := db.snap }] }, .ok)
 
 /-! ### line protocol (component `snapverify`)
-`new` → ok;  `file db|wal|olddb|oldwal <contenthex> <side>` → ok   (side: `c<decimal>` | `d` | `b`)
+`new` → ok;  `file db|wal|olddb|oldwal <snapdir#> <contenthex> <side>` → ok   (side: `c<decimal>` | `d` | `b`)
 `setc <i> <hex>` / `sets <i> <side>` → ok | bad-op    (late or early corruption of file i)
 `ensure` → ok | err
 `open` → `err` | `ok <size:crc,…> accept=<bool>`
@@ -141,17 +149,17 @@ def setAt {α} (l : List α) (i : Nat) (f : α → α) : Option (List α) :=
 def step (d : DState) (line : String) : DState × String :=
   match words line with
   | ["new"] => ({}, "ok")
-  | ["file", kind, c, sd] =>
-    match tokBytes c, sideTok sd with
-    | some c, some sd =>
+  | ["file", kind, sn, c, sd] =>
+    match sn.toNat?, tokBytes c, sideTok sd with
+    | some sn, some c, some sd =>
       let mk (isDb chain : Bool) : DState × String :=
-        ({ s := { d.s with files := d.s.files ++ [{ content := c, side := sd, isDb := isDb, chain := chain }] } }, "ok")
+        ({ s := { d.s with files := d.s.files ++ [{ content := c, side := sd, isDb := isDb, chain := chain, snap := sn }] } }, "ok")
       if kind == "db" then mk true true
       else if kind == "wal" then mk false true
       else if kind == "olddb" then mk true false
       else if kind == "oldwal" then mk false false
       else (d, "bad-op")
-    | _, _ => (d, "bad-op")
+    | _, _, _ => (d, "bad-op")
   | ["setc", i, c] =>
     match i.toNat?, tokBytes c with
     | some i, some c =>
